@@ -212,3 +212,221 @@ func numCmp(op string, a, b *Term) *Term {
 	}
 	panic(evalFail{})
 }
+
+// ---- symbolic unfolding of recursive specification functions ----
+
+var selectorIndex map[string]struct {
+	so  *Sort
+	idx int
+}
+
+func buildSelectorIndex() {
+	selectorIndex = map[string]struct {
+		so  *Sort
+		idx int
+	}{}
+	for _, so := range dtSorts {
+		for i, f := range so.Fields {
+			selectorIndex[f.Name] = struct {
+				so  *Sort
+				idx int
+			}{so, i}
+		}
+	}
+}
+
+// instSX builds the term denoted by an s-expression under a symbolic environment.
+func instSX(s *sx, env map[string]*Term) *Term {
+	if s.list == nil {
+		a := s.atom
+		if t, ok := env[a]; ok {
+			return t
+		}
+		switch {
+		case a == "true":
+			return TTrue
+		case a == "false":
+			return TFalse
+		case strings.HasPrefix(a, "\""):
+			t, err := sxToTerm(s, SString)
+			if err != nil {
+				panic(evalFail{})
+			}
+			return t
+		}
+		if bi, ok := new(big.Int).SetString(a, 10); ok {
+			return IntBig(bi)
+		}
+		if strings.Contains(a, ".") {
+			if _, ok := new(big.Rat).SetString(a); ok {
+				return RealLit(a)
+			}
+		}
+		if sf, ok := specFuncs[a]; ok && len(sf.Args) == 0 {
+			return App(a, sf.Ret)
+		}
+		panic(evalFail{})
+	}
+	head := s.list[0].atom
+	if head == "let" {
+		env2 := map[string]*Term{}
+		for k, v := range env {
+			env2[k] = v
+		}
+		for _, b := range s.list[1].list {
+			env2[b.list[0].atom] = instSX(b.list[1], env)
+		}
+		return instSX(s.list[2], env2)
+	}
+	var as []*Term
+	for _, x := range s.list[1:] {
+		as = append(as, instSX(x, env))
+	}
+	switch head {
+	case "ite":
+		return Ite(as[0], as[1], as[2])
+	case "and":
+		return And(as...)
+	case "or":
+		return Or(as...)
+	case "not":
+		return Not(as[0])
+	case "=>":
+		return Implies(as[0], as[1])
+	case "=":
+		return Eq(as[0], as[1])
+	case "select":
+		return Select(as[0], as[1])
+	case "to_real":
+		if as[0].IsInt() {
+			return RealLit(as[0].Int.String())
+		}
+		return mk("to_real", SReal, as[0])
+	case "real_mul":
+		return realMul(as[0], as[1])
+	case "real_div":
+		return realDiv(as[0], as[1])
+	case "+", "-", "*", "/":
+		if as[0].Sort == SReal {
+			r := as[0]
+			if len(as) == 1 && head == "-" {
+				return mk("-", SReal, r)
+			}
+			for _, a := range as[1:] {
+				r = mk(head, SReal, r, a)
+			}
+			return r
+		}
+		if len(as) == 1 && head == "-" {
+			return Neg(as[0])
+		}
+		r := as[0]
+		for _, a := range as[1:] {
+			r = arith(head, r, a)
+		}
+		return r
+	case "div":
+		return SDiv(as[0], as[1])
+	case "mod":
+		return SMod(as[0], as[1])
+	case "<":
+		return lessT(as[0], as[1], false)
+	case "<=":
+		return lessT(as[0], as[1], true)
+	case ">":
+		return lessT(as[1], as[0], false)
+	case ">=":
+		return lessT(as[1], as[0], true)
+	}
+	if si, ok := selectorIndex[head]; ok && len(as) == 1 && as[0].Sort == si.so {
+		return Sel(as[0], si.idx)
+	}
+	for _, so := range dtSorts {
+		if so.Ctor == head && len(as) == len(so.Fields) {
+			return Mk(so, as...)
+		}
+	}
+	if sf, ok := specFuncs[head]; ok && len(sf.Args) == len(as) {
+		return App(head, sf.Ret, as...)
+	}
+	panic(evalFail{})
+}
+
+func lessT(a, b *Term, eq bool) *Term {
+	if a.Sort == SReal {
+		if eq {
+			return mk("<=", SBool, a, b)
+		}
+		return mk("<", SBool, a, b)
+	}
+	if eq {
+		return Le(a, b)
+	}
+	return Lt(a, b)
+}
+
+// unfoldings: for every application of a recursive specification function in ts,
+// the equation  f(args) = body[args]  (two levels deep), as hypotheses.
+func unfoldings(ts []*Term) []*Term {
+	if selectorIndex == nil {
+		buildSelectorIndex()
+	}
+	var out []*Term
+	done := map[*Term]bool{}
+	var frontier []*Term
+	collectRec := func(t *Term, into *[]*Term) {
+		seen := map[*Term]bool{}
+		var rec func(x *Term)
+		rec = func(x *Term) {
+			if seen[x] {
+				return
+			}
+			seen[x] = true
+			if x.Op == "app" && !x.open {
+				if d, ok := specDefs[x.Str]; ok && d.rec && !done[x] {
+					*into = append(*into, x)
+				}
+			}
+			for _, a := range x.Args {
+				rec(a)
+			}
+		}
+		rec(t)
+	}
+	for _, t := range ts {
+		collectRec(t, &frontier)
+	}
+	for level := 0; level < 2 && len(frontier) > 0 && len(out) < 40; level++ {
+		var next []*Term
+		for _, app := range frontier {
+			if done[app] {
+				continue
+			}
+			done[app] = true
+			d := specDefs[app.Str]
+			env := map[string]*Term{}
+			for i, p := range d.params {
+				env[p] = app.Args[i]
+			}
+			var body *Term
+			func() {
+				defer func() {
+					if r := recover(); r != nil {
+						if _, is := r.(evalFail); !is {
+							panic(r)
+						}
+					}
+				}()
+				body = instSX(d.body, env)
+			}()
+			if body == nil || body.Sort != app.Sort {
+				continue
+			}
+			eq := mk("=", SBool, app, body)
+			out = append(out, eq)
+			collectRec(body, &next)
+		}
+		frontier = next
+	}
+	return out
+}
